@@ -1,8 +1,10 @@
 #!/bin/bash
-# thorough tier of the properties named on the command line (background soak after a change to one check)
+# thorough tier of the properties named on the command line (background soak after a change to one check);
+# an optional first argument seed=N runs them under VERIF_SEED=N
 cd "$(dirname "$0")/.."
+if [[ "$1" == seed=* ]]; then export VERIF_SEED="${1#seed=}"; shift; fi
 for p in "$@"; do
-  echo "=== $p $(date +%T)"
+  echo "=== $p $(date +%T) VERIF_SEED=${VERIF_SEED:-0}"
   VERIF_WORKERS=${VERIF_WORKERS:-12} /venv/bin/python check.py $p --tier thorough --no-evidence 2>&1 | tail -15
 done
 echo "=== done $(date +%T)"
